@@ -3,6 +3,7 @@ CONSTANTS
   MaxLines = 4
 SPECIFICATION Spec
 INVARIANT TypeOK
+INVARIANT StateIsParse
 INVARIANT Ordered2
 INVARIANT Nested
 INVARIANT QuoteLaw
